@@ -808,6 +808,9 @@ evaluate() const {
     case '&':
       return Result(r1.as_integer() & r2.as_integer());
 
+    case '^':
+      return Result(r1.as_integer() ^ r2.as_integer());
+
     case OROR:
       if (r1.as_boolean()) {
         return r1;
